@@ -24,6 +24,11 @@ Lemma tie_closeWith : f_endpoint_closeWith =
 (* one goroutine per mailbox, one mail at a time: LObj *)
 Lemma tie_mailbox_loop : f_mailbox_loop = "go ; recv box ; r.Receive". Proof. reflexivity. Qed.
 
+(* service 0 keeps nothing between two requests (AuthStateless.v, C12_service0_stateless): the struct of
+   serviceAuthenticate holds the authenticator only, bus/authenticate.go has no package-level variable but its error value *)
+Lemma tie_service0_stateless : (f_c12_service0_fields, f_c12_service0_package_vars) = ("auth Authenticator", "ErrCapabilityTooLong").
+Proof. reflexivity. Qed.
+
 (* the generated stubs: every decoding statement of a stub method is followed by an error answer; no panic *)
 Lemma tie_stub_object : (f_stub_object_panics, f_stub_object_decode_errors_answered) = (0%nat, true). Proof. reflexivity. Qed.
 Lemma tie_stub_directory : (f_stub_directory_panics, f_stub_directory_decode_errors_answered) = (0%nat, true). Proof. reflexivity. Qed.
